@@ -17,12 +17,13 @@ type C15Case struct {
 
 // drawRunPath builds a path from collinear runs, spikes, duplicates, unit steps and
 // generic points, then rotates it so that runs may span index 0.
-func drawRunPath(t *rapid.T, lo, hi int, big bool) Path {
+// mag selects the coordinate range: 0 = +-60, 1 = +-2^26, 2 = +-2^40, 3 = +-2^60 (the exact
+// collinearity test multiplies differences in 128 bits, so the statement has no magnitude bound).
+func drawRunPath(t *rapid.T, lo, hi int, mag int) Path {
 	n := rapid.IntRange(lo, hi).Draw(t, "n")
-	R := int64(60)
-	if big {
-		R = maxC / 8
-	}
+	R := []int64{60, maxC / 8, 1 << 40, 1 << 60}[mag]
+	big := mag > 0
+	clampC := func(v int64) int64 { return clampR(v, R) }
 	pt := func() P {
 		return P{X: rapid.Int64Range(-R, R).Draw(t, "x"), Y: rapid.Int64Range(-R, R).Draw(t, "y")}
 	}
@@ -33,7 +34,7 @@ func drawRunPath(t *rapid.T, lo, hi int, big bool) Path {
 			a := p[len(p)-1]
 			dx, dy := rapid.Int64Range(-7, 7).Draw(t, "dx"), rapid.Int64Range(-7, 7).Draw(t, "dy")
 			if big {
-				dx, dy = dx*rapid.Int64Range(1, 1<<20).Draw(t, "mul"), dy*rapid.Int64Range(1, 1<<20).Draw(t, "mul2")
+				dx, dy = dx*rapid.Int64Range(1, R>>6).Draw(t, "mul"), dy*rapid.Int64Range(1, R>>6).Draw(t, "mul2")
 			}
 			m := rapid.IntRange(1, 3).Draw(t, "runLen")
 			for j := 0; j < m && len(p) < n; j++ {
@@ -200,10 +201,10 @@ func allEqual(p Path) bool {
 
 func init() {
 	defProp("C15",
-		"rapid-generated closed and open paths of 0-14 points built from collinear runs (also backwards = 180-degree spikes), duplicates, unit steps, returns to earlier vertices and generic points, small (+-60) and large (+-2^26) coordinates, rotated so that runs span index 0; validity predicate: cyclic/ordinary sub-sequence, (closed) exact doubled area unchanged, winding number unchanged at probes off the input boundary, no exactly collinear cyclic triple left, empty or >= 3 vertices, idempotent; (open) both end points kept and the signed ray-crossing number of the polyline unchanged at probes off the trace; non-trivial = at least one vertex removed and at least one kept",
+		"rapid-generated closed and open paths of 0-14 points built from collinear runs (also backwards = 180-degree spikes), duplicates, unit steps, returns to earlier vertices and generic points, coordinates within +-60, +-2^26, +-2^40 or +-2^60, rotated so that runs span index 0; validity predicate: cyclic/ordinary sub-sequence, (closed) exact doubled area unchanged, winding number unchanged at probes off the input boundary, no exactly collinear cyclic triple left, empty or >= 3 vertices, idempotent; (open) both end points kept and the signed ray-crossing number of the polyline unchanged at probes off the trace; non-trivial = at least one vertex removed and at least one kept",
 		[]string{"open paths: the statement only demands that end points are kept and that only exactly collinear vertices disappear; the latter is judged through the invariance of signed ray-crossing numbers at probe points (centroids of consecutive triples included)"},
 		func(t *rapid.T) *C15Case {
-			return &C15Case{Path: drawRunPath(t, 0, 14, rapid.IntRange(0, 3).Draw(t, "big") == 0), IsOpen: rapid.IntRange(0, 2).Draw(t, "open") == 0}
+			return &C15Case{Path: drawRunPath(t, 0, 14, rapid.SampledFrom([]int{0, 0, 0, 1, 2, 3}).Draw(t, "mag")), IsOpen: rapid.IntRange(0, 2).Draw(t, "open") == 0}
 		}, judgeC15)
 }
 
